@@ -12,9 +12,11 @@ Rej(prop, dev) == PrintT(<<"REJ", l, prop, dev>>)
 JudgeDoc(e) ==
     IF e.ret # "ok" THEN Rej("C03", IF e.ret = "panic" THEN "marshal-panicked" ELSE "marshal-returned-error")
     ELSE /\ IF WellFormed(e.doc, e.out) /\ NoDupLinkage(e.out) THEN TRUE ELSE Rej("C03", "NONE")
-         /\ IF Selected(e.doc, e.out) THEN TRUE ELSE Rej("C04", "NONE")
-         /\ IF RoundTrip(e.doc, e.back) THEN TRUE ELSE Rej("C02", "NONE")
-         /\ IF Deterministic(e.det) THEN TRUE ELSE Rej("C11", "NONE")
+         \* (a document whose primary resource cannot be encoded - e.doc.unenc - is judged for its form only:
+         \* the other three properties speak of what a resource exposes, and this one exposes nothing)
+         /\ IF e.doc.unenc \/ Selected(e.doc, e.out) THEN TRUE ELSE Rej("C04", "NONE")
+         /\ IF e.doc.unenc \/ RoundTrip(e.doc, e.back) THEN TRUE ELSE Rej("C02", "NONE")
+         /\ IF e.doc.unenc \/ Deterministic(e.det) THEN TRUE ELSE Rej("C11", "NONE")
 
 JudgeInclude(e) ==
     IF e.ret = "ok" /\ e.post = IncludeRes(e.pre, e.op) THEN TRUE
